@@ -23,10 +23,9 @@ struct Model {
     owner_moved: bool,
     /// per token: balances of U1, U2, V, the service, the collector, the stranger
     bal: [[i128; 6]; 3],
-    paid: [i128; 3],
-    added: [i128; 3],
-    collected: [i128; 3],
-    refunded: [i128; 3],
+    /// per token: payments + top-ups - collected - refunded, with payouts to the service itself
+    /// counted on both sides (kept as one net figure: the individual sums can exceed 128 bits)
+    net: [i128; 3],
 }
 
 #[derive(Clone, Copy, Debug, PartialEq, Eq, Serialize, Deserialize)]
@@ -42,7 +41,7 @@ enum Amt {
 enum Act {
     Pay { token: usize, spender: usize, amt: Amt, auth: bool },
     Add { token: usize, spender: usize, amt: Amt, auth: bool },
-    /// receiver: 0 = V, 1 = the gas collector itself, 2 = an address the third token refuses
+    /// receiver: 0 = V, 1 = the gas collector itself, 2 = an address the third token refuses, 3 = the gas service itself
     Collect { token: usize, amt: Amt, by: usize, receiver: u8 },
     Refund { token: usize, amt: Amt, by: usize, receiver: u8 },
     /// the current owner hands the ownership to the stranger (the collector role must not follow)
@@ -60,7 +59,7 @@ fn amt_of(a: Amt, base: i128) -> i128 {
         Amt::Zero => 0,
         Amt::One => 1,
         Amt::All => base,
-        Amt::AllPlus1 => base + 1,
+        Amt::AllPlus1 => base.saturating_add(1),
     }
 }
 const AMTS: [Amt; 5] = [Amt::One, Amt::All, Amt::AllPlus1, Amt::Zero, Amt::Neg];
@@ -71,8 +70,11 @@ impl Scenario for C14 {
     type A = Act;
 
     fn id(&self) -> &'static str { "C14" }
-    fn n_configs(&self) -> usize { 2 }
+    fn n_configs(&self) -> usize { 3 }
     fn config_label(&self, c: usize) -> String {
+        if c == 2 {
+            return "gas service (owner and collector distinct) already holding i128::MAX - 5 of the stellar asset and of the native interchain token; U2 holds 7 of each".into();
+        }
         format!("gas service ({}); tokens: stellar asset contract, native interchain token, a token refusing one recipient; U1 holds 3, U2 holds 2 of each", if c == 0 { "owner and collector distinct" } else { "owner = collector at deployment" })
     }
     fn world<'a>(&self, ctx: &'a Ctx) -> &'a World { &ctx.w }
@@ -91,15 +93,31 @@ impl Scenario for C14 {
             (admin.clone(), Option::<Address>::None, to_val(env, &sbytes(&[3u8; 32])), to_val(env, &metadata_scval(b"Gas", b"GAS", 7))),
         );
         let fussy = env.register(FussyToken, (who[5].clone(),));
-        for t in [&asset, &native, &fussy] {
-            for (i, n) in [(0usize, 3i128), (1, 2)] {
+        let big = i128::MAX - 5;
+        for (ti, t) in [&asset, &native, &fussy].into_iter().enumerate() {
+            let near_max = c == 2 && ti < 2;
+            for (i, n) in if near_max { [(0usize, big), (1, 7)] } else { [(0usize, 3i128), (1, 2)] } {
                 let c = w.call(t, "mint", &[who[i].to_val(), w.v(n)], Auth::Setup);
                 assert!(c.ok, "{}", c.err);
             }
+            if near_max {
+                // U1 pays everything in: the service's custody sits 5 below the largest amount
+                let tok = token_scval(&w.sc_addr(t), big);
+                let c = w.call(
+                    &gas,
+                    "pay_gas",
+                    &[who[5].to_val(), to_val(env, &sstr("dest-chain")), to_val(env, &sstr("dest-addr")), to_val(env, &sbytes(b"p")), who[0].to_val(), to_val(env, &tok), to_val(env, &sbytes(b"meta"))],
+                    Auth::Setup,
+                );
+                assert!(c.ok, "{}", c.err);
+            }
         }
+        let small = [3, 2, 0, 0, 0, 0];
+        let large = [0, 7, 0, big, 0, 0];
+        let (bal, net) = if c == 2 { ([large, large, small], [big, big, 0]) } else { ([small; 3], [0; 3]) };
         (
             Ctx { w, gas, tokens: vec![asset, native, fussy], who, owner0: if c == 1 { 3 } else { 4 } },
-            Model { advances: 0, owner_moved: false, bal: [[3, 2, 0, 0, 0, 0]; 3], paid: [0; 3], added: [0; 3], collected: [0; 3], refunded: [0; 3] },
+            Model { advances: 0, owner_moved: false, bal, net },
         )
     }
 
@@ -133,6 +151,11 @@ impl Scenario for C14 {
             for amt in AMTS {
                 v.push(Act::Collect { token, amt, by: 3, receiver: 0 });
                 v.push(Act::Refund { token, amt, by: 3, receiver: 0 });
+            }
+            // paying out to the service itself must leave every balance where it was
+            for amt in [Amt::One, Amt::All] {
+                v.push(Act::Collect { token, amt, by: 3, receiver: 3 });
+                v.push(Act::Refund { token, amt, by: 3, receiver: 3 });
             }
             for by in [4usize, 5] {
                 for amt in if self.thorough { vec![Amt::One, Amt::All] } else { vec![Amt::One] } {
@@ -194,14 +217,14 @@ impl Scenario for C14 {
                         Auth::By(&signers),
                     )
                 };
-                let want = *auth && x > 0 && m.bal[*token][*spender] >= x;
+                let want = *auth && x > 0 && m.bal[*token][*spender] >= x && m.bal[*token][3].checked_add(x).is_some();
                 out.accepted = call.ok;
                 out.expect(call.ok == want, "payment.outcome", || format!("{:?} (amount {}): ok={} ({}), model {}; balances {:?}", a, x, call.ok, call.err, want, m.bal));
                 if call.ok {
                     if want {
                         m.bal[*token][*spender] -= x;
                         m.bal[*token][3] += x;
-                        if pay { m.paid[*token] += x } else { m.added[*token] += x }
+                        m.net[*token] += x;
                     }
                     let must = if pay {
                         vec![w.sc_addr_val(&sender), sstr("dest-chain"), sstr("dest-addr"), sbytes(&keccak(&payload)), w.sc_addr_val(&sp), tok.clone()]
@@ -224,8 +247,8 @@ impl Scenario for C14 {
                 let held = m.bal[*token][3];
                 let x = amt_of(*amt, held);
                 let tok = token_scval(&w.sc_addr(&ctx.tokens[*token]), x);
-                let recv = match receiver { 0 => ctx.who[2].clone(), 1 => ctx.who[3].clone(), _ => ctx.who[5].clone() };
-                let rix = match receiver { 0 => 2usize, 1 => 4, _ => 5 };
+                let recv = match receiver { 0 => ctx.who[2].clone(), 1 => ctx.who[3].clone(), 3 => ctx.gas.clone(), _ => ctx.who[5].clone() };
+                let rix = match receiver { 0 => 2usize, 1 => 4, 3 => 3, _ => 5 };
                 let signers = [ctx.who[*by].clone()];
                 let call = if collect {
                     w.call(&ctx.gas, "collect_fees", &[recv.to_val(), to_val(env, &tok)], Auth::By(&signers))
@@ -233,7 +256,9 @@ impl Scenario for C14 {
                     w.call(&ctx.gas, "refund", &[to_val(env, &sstr("msg-7")), recv.to_val(), to_val(env, &tok)], Auth::By(&signers))
                 };
                 out.accepted = call.ok;
-                let want = *by == 3 && x > 0 && x <= held && *receiver != 2;
+                // the receiver's own balance must be able to take the amount
+                let fits = rix == 3 || m.bal[*token][rix].checked_add(x).is_some();
+                let want = *by == 3 && x > 0 && x <= held && *receiver != 2 && fits;
                 // a refund of 0 by the collector is outside the statement; it must still move nothing
                 let unspecified = !collect && *by == 3 && x == 0;
                 if !unspecified {
@@ -243,7 +268,9 @@ impl Scenario for C14 {
                     if want {
                         m.bal[*token][3] -= x;
                         m.bal[*token][rix] += x;
-                        if collect { m.collected[*token] += x } else { m.refunded[*token] += x }
+                        if rix != 3 {
+                            m.net[*token] -= x;
+                        }
                     }
                     if !unspecified {
                         let must = if collect { vec![tok.clone()] } else { vec![sstr("msg-7"), w.sc_addr_val(&recv), tok.clone()] };
@@ -269,7 +296,7 @@ impl Scenario for C14 {
                 let q = w.query(&ctx.tokens[t], "balance", &[h.to_val()]).and_then(|v| i128_of(&v));
                 out.expect(q == Some(m.bal[t][i]), "probe.balance", || format!("token {} holder {}: {:?} vs {}", t, i, q, m.bal[t][i]));
             }
-            let eq = m.paid[t] + m.added[t] - m.collected[t] - m.refunded[t];
+            let eq = m.net[t];
             out.expect(m.bal[t][3] == eq && eq >= 0, "probe.equation", || format!("token {}: held {} vs paid+added-collected-refunded {}", t, m.bal[t][3], eq));
         }
     }
@@ -284,7 +311,7 @@ fn main() {
         let thorough = tier == "thorough";
         let mut o = Opts::new(tier, if thorough { 10 } else { 4 });
         o.min_depth = 3;
-        o.rule = "two configurations (owner and collector distinct / the same address at deployment); all sequences over ownership transfer to the stranger, pay_gas / add_gas (2 tokens: stellar asset contract and native interchain token; spenders U1, U2; amounts -1, 0, 1, balance, balance+1; authorised by the spender or by someone else) and collect_fees / refund (amounts -1, 0, 1, held, held+1; by collector, owner, stranger (who may have become the owner); to a receiver, to the collector itself, and to an address that a third token refuses); after every new state all balances of both tokens and the equation held == paid + added - collected - refunded are compared with the model".into();
+        o.rule = "three configurations (owner and collector distinct / the same address at deployment / the service already holding i128::MAX - 5 of two tokens); all sequences over ownership transfer to the stranger, pay_gas / add_gas (2 tokens: stellar asset contract and native interchain token; spenders U1, U2; amounts -1, 0, 1, balance, balance+1; authorised by the spender or by someone else) and collect_fees / refund (amounts -1, 0, 1, held, held+1; by collector, owner, stranger (who may have become the owner); to a receiver, to the collector itself, to the gas service itself, and to an address that a third token refuses); after every new state all balances of both tokens and the equation held == paid + added - collected - refunded are compared with the model".into();
         (C14 { thorough }, o)
     });
 }
